@@ -11,6 +11,7 @@ import (
 // ---- noise at tree level: unknown attributes and elements, order of children ----
 
 var unknownAttrs = []string{"zzattr", "x-extra", "Q1", "data-src", "xid", "lat2", "_k"}
+
 // unknown element names, among them names that only a Unicode case mapping would turn into
 // an object kind (U+0130, U+212A)
 var unknownElems = []string{"zzfoo", "x-extra", "Unknown1", "q_el", "remark", "meta2", "center", "relat\u0130on", "\u212Aey", "n\u00F8de"}
@@ -220,7 +221,16 @@ func (l *Layout) Lexical(a Atom) string {
 		s := strconv.FormatFloat(a.F, 'g', -1, 64)
 		switch l.pick(5) {
 		case 1:
+			// fixed notation with trailing zeros, never fewer digits than the value needs
 			s = strconv.FormatFloat(a.F, 'f', 7, 64)
+			if back, err := strconv.ParseFloat(s, 64); err != nil || back != a.F {
+				s = strconv.FormatFloat(a.F, 'f', -1, 64)
+				if strings.Contains(s, ".") {
+					s += "00"
+				} else {
+					s += ".0"
+				}
+			}
 			l.count("layout:float-variant")
 		case 2:
 			s = strconv.FormatFloat(a.F, 'e', -1, 64)
